@@ -6,6 +6,7 @@ import (
 	"go/token"
 	"go/types"
 	"os"
+	"regexp"
 	"sort"
 	"strings"
 
@@ -282,6 +283,14 @@ func c14r1(c *Check) {
 			}
 		case "K8":
 			done = dischargeClose(c, s)
+		case "K12":
+			if nilGuarded(s.Fn, s.In, s.Val) {
+				done = "dominated by a nil test of the function value"
+			} else if g, _ := funcTableElement(s.Val); g != nil {
+				if ok, _ := funcTableComplete(c.P, g); ok {
+					done = "every slot of the table is filled with a function by the package initialiser"
+				}
+			}
 		case "K9":
 			minLenLG := int64(0)
 			switch x := s.In.(type) {
@@ -438,6 +447,16 @@ func crashExplain(s crashSite) string {
 		return "close() of a channel that other goroutines may still send on: send on closed channel panics"
 	case "K9":
 		return "constant index/slice bounds on a slice whose length is not tested: " + s.What
+	case "K12":
+		why := ""
+		if g, _ := funcTableElement(s.Val); g != nil {
+			if p := cgOf(s.Fn).P; p != nil {
+				if _, w := funcTableComplete(p, g); w != "" {
+					why = " (" + w + ")"
+				}
+			}
+		}
+		return "a function taken out of a lookup table is called without a nil test although not every index/key has an entry: a recognised token without an entry calls a nil function and panics" + why
 	case "K11":
 		return "result of a map lookup without comma-ok is dereferenced: nil dereference when the key is absent"
 	}
@@ -1114,6 +1133,27 @@ func c14r2(c *Check) {
 		okTwo = nSites > 0 && nGuarded == nSites
 		fn := entry
 		c.Judge(okTwo, rdr[0]+"."+rdr[1]+" consistentHashing needs destinations", c.AtFn(fn), "the number of destinations is checked before NewConsistentHashing", "a consistentHashing route can be created without destinations: empty ring")
+	}
+	// indices given in commands are never negative: the command grammar's number token has no sign
+	// (the index guards of the Del*/mod* commands test the upper bound only)
+	if pat, ok := tokenPatterns(c.P)["num"]; !ok {
+		anchorFail("imperatives.tokens: no pattern for the num token")
+	} else {
+		re, err := regexp.Compile(pat)
+		bad := ""
+		switch {
+		case err != nil:
+			bad = "the pattern does not compile: " + err.Error()
+		case !re.MatchString("12 ") && !re.MatchString("12"):
+			bad = "the pattern does not accept a plain number"
+		default:
+			for _, probe := range []string{"-1 ", "-1", "+1 ", "-0 ", " -1"} {
+				if loc := re.FindStringIndex(probe); loc != nil && loc[0] == 0 && strings.ContainsAny(probe[:loc[1]], "-+") {
+					bad = fmt.Sprintf("the pattern %q accepts %q as a number", pat, strings.TrimSpace(probe))
+				}
+			}
+		}
+		c.Judge(bad == "", "imperatives.tokens num is an unsigned decimal", "imperatives/imperatives.go", fmt.Sprintf("pattern %q", pat), bad+": a command such as `modDest <route> -1 …` then passes the `index >= len(…)` guard and indexes the destination list with -1, which panics in the admin connection's goroutine")
 	}
 	// consistent hashing ring stays non-empty
 	chd := c.P.Func("route", "*ConsistentHashing", "DelDestination")
